@@ -75,3 +75,13 @@ Proof.
   exact (fun h => set_ip_host_total dbg hp hpo hd u h W).
 Qed.
 End Chain.
+
+(* the same for the histories of C05's CReach3: parse, join and ALL 19 mutators (Url setters, path_segments_mut
+   sessions, the quirks setters), each step outside the known classes (step_gate3: the frame hypotheses of C06 / C05 -
+   F-C02-2/-4/-8, F-C03-5, F-C06-5 - spelled on the pair of records).  Extra hypothesis IpDisp: Display writes an
+   address as a non-empty text that does not start with ':' / '@' (C09_inst_IpDisp for the host model). *)
+Theorem creach3_wf hp hpo hd : HostWf hp hpo hd -> IpDisp hd ->
+  forall dbg u, CReach3 dbg hp hpo hd u -> wf_b u = true /\ wfh u.
+Proof.
+  intros HW HI dbg u R. destruct (creach3_components dbg hp hpo hd HW HI u R) as [H _]. split; [exact (proj1 H) | exact H].
+Qed.
